@@ -2249,6 +2249,9 @@ func (d *Data) newLabel(v dvid.VersionID) (uint64, error) {
 		}
 		return d.NextLabel, nil
 	}
+	if d.MaxRepoLabel == ^uint64(0) {
+		return 0, fmt.Errorf("no new label available for data %q: the maximum label is already %d", d.DataName(), d.MaxRepoLabel)
+	}
 	d.MaxRepoLabel++
 	d.MaxLabel[v] = d.MaxRepoLabel
 	if err := d.persistMaxLabel(v); err != nil {
@@ -2276,6 +2279,10 @@ func (d *Data) newLabels(v dvid.VersionID, numLabels uint64) (begin, end uint64,
 		if err = d.persistNextLabel(); err != nil {
 			return
 		}
+		return
+	}
+	if numLabels > ^uint64(0)-d.MaxRepoLabel {
+		err = fmt.Errorf("cannot reserve %d new labels for data %q: the maximum label is already %d", numLabels, d.DataName(), d.MaxRepoLabel)
 		return
 	}
 	begin = d.MaxRepoLabel + 1
